@@ -276,6 +276,19 @@ func propC15(ch core.Chooser, st *core.Stats) error {
 		if _, err := checkDirectory(env, db, when); err != nil {
 			return err
 		}
+		// Backup comes first: straight after the compaction, before any write has moved the log on
+		// (the segment that was current may be among the removed ones)
+		if core.Pct(ch, "backup", 30) && (kind == "os" || kind == "mmap") {
+			bdir := env.Dir + "-backup"
+			if err := core.Safe(func() error { return db.Backup(bdir) }); err != nil {
+				return fmt.Errorf("%s: Backup failed: %v", when, err)
+			}
+			_ = os.RemoveAll(bdir)
+			st.Count("backups", 1)
+			if cr.CompactedSegments > 0 {
+				st.Count("backups_straight_after_a_removing_compaction", 1)
+			}
+		}
 		if err := usable(when); err != nil {
 			return err
 		}
@@ -289,14 +302,6 @@ func propC15(ch core.Chooser, st *core.Stats) error {
 			if segsLeft == 0 {
 				st.Count("compactions_removing_every_segment", 1)
 			}
-		}
-		if core.Pct(ch, "backup", 8) && (kind == "os" || kind == "mmap") {
-			bdir := env.Dir + "-backup"
-			if err := core.Safe(func() error { return db.Backup(bdir) }); err != nil {
-				return fmt.Errorf("%s: Backup failed: %v", when, err)
-			}
-			_ = os.RemoveAll(bdir)
-			st.Count("backups", 1)
 		}
 		if core.Pct(ch, "restart", 25) {
 			if err := reopen(fmt.Sprintf("round %d after restart", r)); err != nil {
